@@ -547,12 +547,17 @@ def build_native(ws):
     return dst
 
 
-def native_parse_props(binpath, texts):
+def native_parse_props(binpath, texts, max_hangs=3):
     """real syntax::parse on concrete texts (batched through stdin) -> list of result dicts,
-    one per text; a hang ends the helper process, which is restarted on the remaining texts"""
+    one per text; a hang ends the helper process, which is restarted on the remaining texts.
+    Every hang costs the watchdog time, so the enumeration stops after `max_hangs` hangs (the
+    results so far are returned)."""
     out = []
     i = 0
+    hangs = 0
     while i < len(texts):
+        if hangs >= max_hangs:
+            break
         chunk = texts[i:]
         inp = "\n".join("h:" + t.encode("utf-8").hex() for t in chunk) + "\n"
         try:
@@ -568,6 +573,8 @@ def native_parse_props(binpath, texts):
             except Exception:
                 out.append({"text": chunk[got], "crashed": True})
             got += 1
+        if out and out[-1].get("hang"):
+            hangs += 1
         if got < len(chunk):
             last = out[-1] if out else {}
             if not (got > 0 and last.get("hang")):
